@@ -79,6 +79,13 @@ fn fault_all() -> Vec<Job> {
     ]
 }
 
+fn crash_all() -> Vec<Job> {
+    vec![
+        Job { name: "crash-http".into(), kind: JobKind::Crash { entry: Entry::Http }, quick: 112, thorough: 6000 },
+        Job { name: "crash-lib".into(), kind: JobKind::Crash { entry: Entry::Lib }, quick: 112, thorough: 6000 },
+    ]
+}
+
 fn wire_all() -> Vec<Job> {
     vec![
         Job { name: "wire-mem".into(), kind: JobKind::Wire { backend: Backend::Memory }, quick: 6000, thorough: 300_000 },
@@ -110,6 +117,8 @@ pub fn jobs_for(prop: &str) -> Vec<Job> {
         }
         "C03" => conc_all(),
         "C05" => fault_all(),
+        "C04" => crash_all(),
+        "C19" => vec![Job { name: "compat-corpus".into(), kind: JobKind::Compat, quick: 240, thorough: 4000 }],
         "C12" => seq_all(Focus::Urgency, 1),
         "C06" => seq_all(Focus::Payloads, 1),
         "C14" => {
